@@ -45,6 +45,12 @@ type c11Case struct {
 	// CBOR encoding of its map (indefinite-length map), next to the filled Protected map, and the signatures
 	// are the reference's over exactly those bytes
 	IndefRaw bool `json:"indef_raw,omitempty"`
+	// WideHeads (decoded messages): every protected bucket travels behind a two-byte bstr head (58 nn). The
+	// Sig_structure takes them in shortest form, so the signatures of the base message stay valid; with
+	// RawFormSig the LAST slot instead carries a signature over the structure with the items as transmitted,
+	// which is not that signer's Sig_structure
+	WideHeads  bool `json:"wide_heads,omitempty"`
+	RawFormSig bool `json:"raw_form_sig,omitempty"`
 }
 
 type panickingVerifier struct{ cose.Verifier }
@@ -153,8 +159,22 @@ func checkC11(c c11Case) error {
 	}
 	var m *cose.SignMessage
 	if c.Decoded {
+		wire := b.wire
+		if c.WideHeads {
+			root, err := rc.MParse(b.wire, false)
+			if err != nil {
+				return fmt.Errorf("harness: %v", err)
+			}
+			arr := root.Child
+			arr.Items[0].W = 1
+			for _, sg := range arr.Items[3].Items {
+				sg.Items[0].W = 1
+			}
+			wire = root.Enc()
+			stats.Class("protected-buckets-behind-two-byte-heads")
+		}
 		m = &cose.SignMessage{}
-		if err := m.UnmarshalCBOR(append([]byte{}, b.wire...)); err != nil {
+		if err := m.UnmarshalCBOR(append([]byte{}, wire...)); err != nil {
 			return finding("own-output-rejected", "%v", err)
 		}
 	} else {
@@ -174,6 +194,20 @@ func checkC11(c c11Case) error {
 		}
 		sigs[i] = s
 		m.Signatures[i].Signature = s
+	}
+	rawFormSlot := -1
+	if c.Decoded && c.WideHeads && c.RawFormSig && n >= 1 && c.Slots[n-1] == 0 {
+		rawFormSlot = n - 1
+		wide := func(content []byte) []byte { return append([]byte{0x58, byte(len(content))}, content...) }
+		tbs := append([]byte{0x85, 0x69}, "Signature"...)
+		tbs = append(tbs, wide(b.env.ProtContent())...)
+		tbs = append(tbs, wide(b.env.Sigs[rawFormSlot].ProtContent())...)
+		tbs = append(tbs, rc.Encode(rc.Bytes(b.external), nil)...)
+		tbs = append(tbs, rc.Encode(rc.Bytes(b.payload), nil)...)
+		s := refcose.Sign(c11Keys[rawFormSlot].Alg, c11Keys[rawFormSlot], tbs, []byte("raw-form"))
+		sigs[rawFormSlot] = s
+		m.Signatures[rawFormSlot].Signature = s
+		stats.Class("signature-over-the-structure-with-items-as-transmitted")
 	}
 	signProt := func(i int) []byte { return b.env.Sigs[i].ProtContent() }
 	if c.IndefRaw && !c.Decoded && !c.AlgLess {
@@ -251,7 +285,7 @@ func checkC11(c c11Case) error {
 		if !ok {
 			want = false
 		}
-		mok := c.Slots[i] == 0 && permIndex(c.Perm, n, i) == i
+		mok := c.Slots[i] == 0 && permIndex(c.Perm, n, i) == i && i != rawFormSlot
 		if !mok {
 			model = false
 		}
@@ -359,6 +393,16 @@ func TestC11_Table(t *testing.T) {
 						judge(t, "c11", c, checkC11)
 						if cnt%211 == 0 {
 							stats.Sample(fmt.Sprintf("table/n=%d", n), c)
+						}
+						if di == 1 && perm == 0 {
+							// the same decoded cell with all protected buckets behind two-byte heads, and once more with a
+							// signature over the as-transmitted structure in the last slot
+							for _, rf := range []bool{false, true} {
+								c4 := c
+								c4.WideHeads, c4.RawFormSig = true, rf
+								stats.Eval()
+								judge(t, "c11", c4, checkC11)
+							}
 						}
 						if di == 0 && perm == 0 {
 							// the same cell with every signer's raw protected bytes supplied by the caller
